@@ -516,3 +516,6 @@ def run(run, tier, seed, replay=None):
     # C02E: the checked pipeline model (coq Model/C02EPipeline.v) against the implementation on the core designs and mutants
     from . import c02e
     c02e.run_tie(run, tier, seed, bases, per_class)
+    # C02F: the checked pipeline with nested references (coq Model/C02FPipeline.v) and with bundles (Model/C02FBundles.v) against the implementation
+    from . import c02f
+    c02f.run_tie(run, tier, seed, bases, per_class)
